@@ -60,9 +60,33 @@ def wrap_deep(rng, inner, depth):
     return e
 
 
+def value_through_try(rng, g):
+    """ㅅㄷ yields its first argument fully evaluated — also when that argument *is* an exception value (nothing raised): the
+    delivered value behaves exactly like the original under every observer: indexing, length, equality, spreading, re-throw
+    (seeded change S10i rebuilt such a value with list contents: indexing it crashed)"""
+    ID = "(ㄱㅇㄱ ㅎ)"
+    for _ in range(6):
+        pl = payload(rng, g)
+        exc = "(" + render(bi('ㄷㅂ', *pl)) + ")"
+        n = len(pl)
+        routes = {'direct': exc,
+                  'through-try': f"({exc} {ID} ㅅㄷㅎㄷ)",
+                  'through-two-tries': f"(({exc} {ID} ㅅㄷㅎㄷ) {ID} ㅅㄷㅎㄷ)",
+                  'caught-and-handed-back': f"((({exc} ㄷㅈㅎㄴ) {ID} ㅅㄷㅎㄷ) {ID} ㅅㄷㅎㄷ)",
+                  'in-list-through-try': f"(ㄱ (({exc} ㅁㄹㅎㄴ) {ID} ㅅㄷㅎㄷ) ㅎㄴ)"}
+        observers = [lambda v, i=i: f"{enc(i)} {v} ㅎㄴ" for i in range(-n - 1, n + 1)] + \
+                    [lambda v: f"{v} ㅈㄷㅎㄴ", lambda v: f"{v} {exc} ㄴㅎㄷ", lambda v: v,
+                     lambda v: f"ㄱ (({v} ㄷㅈㅎㄴ) {ID} ㅅㄷㅎㄷ) ㅎㄴ", lambda v: f"{v} (ㄱㅇㄱ ㅁㄹㅎㄴ ㅎ ㅁㅂㅎㄴ) ㅎㄴ"]
+        for rname, v in routes.items():
+            for ob in observers:
+                yield rname, ob(v), ob(exc)
+
+
 def cases(rng, tier):
     rounds = 4 if tier == 'quick' else 150
     g = gen.Gen(rng, max_depth=3)
+    for rname, prog, ref in value_through_try(rng, g):
+        yield Case(program=prog, variants=(ref,), tag='exc-value:' + rname, stdin="x\n")
     for _ in range(rounds):
         for name, tpl in STRICT:
             pl = payload(rng, g)
